@@ -84,6 +84,25 @@ func gen(tier string) []proto.Item {
 					items = append(items, proto.Item{Scn: s2, Class: v + "/" + rtag + "/genuine-reply-read-after-the-next-probe/next-hop-silent"})
 				}
 			}
+			// two packets that say nothing about probe t on their own: an ICMP message of a type the tool ignores that quotes
+			// probe t, then a time-exceeded from somebody else cut right after its ICMP header (its length fields still claim the
+			// rest). A receive path that lets bytes of the first packet survive into the parsing of the second credits hop t.
+			if r.first < d {
+				t := r.first + 1
+				if t < d {
+					s := base(v, r)
+					s.Hops = map[int]proto.HopSpec{t: {Silent: true}}
+					ign, cut := 12, 27
+					if vi.V6 {
+						ign, cut = 4, 47
+					}
+					s.Inject = []proto.Inject{
+						{OnTTL: t, AnswerTTL: t, Form: vi.TEForm, From: evilFor(vi, vi.TEForm, "", ""), DelayUs: 1000, Tag: "ignored-type", NoiseKind: "icmp-type", NoiseArg: ign},
+						{OnTTL: t, AnswerTTL: t, Form: vi.TEForm, From: proto.Router(vi.V6, 0, 99).String(), DelayUs: 2000, Tag: "runt", NoiseKind: "truncate", NoiseArg: cut},
+					}
+					items = append(items, proto.Item{Scn: s, Class: v + "/" + rtag + "/ignored-message-then-runt"})
+				}
+			}
 			// genuine replies to perturb: the first router reply (if any) and the destination reply
 			type gr struct {
 				ttl  int
